@@ -1,5 +1,7 @@
 #!/bin/bash
 # usage: confirm_seeded.sh <dir with change_N.diff demo_N.rs> <N> <outdir>
+# CONFIRM_PROFILE=--release runs the suite and the demonstration in the release profile (wave 6: the debug
+# suite takes ~10 min per change on the loaded machine; the agents ran it in debug themselves).
 # Confirms in a scratch worktree (outside /repo and /verif) that a seeded change compiles, keeps the
 # existing suite green, makes its demonstration fail, and that the demonstration passes without it.
 dir="$1"; n="$2"; out="$3"; id=$(basename "$dir")
@@ -16,13 +18,13 @@ fi
 feat=""; [ "$id" = "C18" ] && feat="--features rayon"
 cp "$dir/demo_$n.rs" tests/demo_$n.rs
 export CARGO_TARGET_DIR="$wt/target" CARGO_NET_OFFLINE=true
-cargo test --offline --workspace --no-fail-fast $feat > "$out/$id-$n.with.log" 2>&1
+cargo test --offline --workspace --no-fail-fast $CONFIRM_PROFILE $feat > "$out/$id-$n.with.log" 2>&1
 # existing tests: every 'test result' line of a non-demo binary must be ok
 demo_with=$(awk '/Running tests\/demo_/{f=1} f&&/^test result/{print; exit}' "$out/$id-$n.with.log")
 others_failed=$(awk '/Running|Doc-tests/{cur=$0} /^test result: FAILED/{ if (cur !~ /demo_/) print cur }' "$out/$id-$n.with.log" | wc -l)
 compile_err=$(grep -c "^error" "$out/$id-$n.with.log")
 git checkout -q -- src
-cargo test --offline $feat --test demo_$n > "$out/$id-$n.without.log" 2>&1
+cargo test --offline $CONFIRM_PROFILE $feat --test demo_$n > "$out/$id-$n.without.log" 2>&1
 demo_without=$(grep "^test result" "$out/$id-$n.without.log" | head -1)
 echo "$id/$n applies=yes compile_errors=$compile_err existing_suites_failed=$others_failed demo_with_change=[$demo_with] demo_without_change=[$demo_without]" > "$res"
 cd /; git -C /repo worktree remove --force "$wt"
